@@ -55,6 +55,7 @@ static uint64_t workload(int idx, uint64_t seed, struct tres* out) {
   var arr = new(Array, Int);
   var str = new(String);
   var lst = new(List, String);
+  var tre = new(Tree, Int, Int);
   var me = current(Thread);
   size_t depth0 = len(current(Exception));
   for (int op = 0; op < wl_ops; op++) {
@@ -65,6 +66,18 @@ static uint64_t workload(int idx, uint64_t seed, struct tres* out) {
       int64_t k = vh_range(&r, 0, 60), v = vh_range(&r, 0, 1000);
       set(tbl, $I(k), $I(v));
       push(arr, $I(v));
+      /* insertions and removals in the middle, an ordered map, a copy: every internal move, rotation and temporary
+         of the containers is this thread's own */
+      if (vh_chance(&r, 60)) {
+        int64_t at = (int64_t)vh_below(&r, (uint64_t)len(arr));
+        push_at(arr, $I(v + 1), $I(at));
+        d = fold(d, (uint64_t)c_int(get(arr, $I(at)))); d = fold(d, (uint64_t)c_int(get(arr, $I(-1))));
+      }
+      if (len(arr) > 4 && vh_chance(&r, 30)) { pop_at(arr, $I(1)); d = fold(d, (uint64_t)c_int(get(arr, $I(1)))); }
+      set(tre, $I(k), $I(v));
+      if (vh_chance(&r, 30) && mem(tre, $I(k / 3))) { rem(tre, $I(k / 3)); }
+      d = fold(d, len(tre)); if (len(tre) > 0) { d = fold(d, (uint64_t)c_int(iter_init(tre))); }
+      if (vh_chance(&r, 10)) { var cp = copy(arr); d = fold(d, hash(cp)); d = fold(d, (uint64_t)eq(cp, arr)); cp = NULL; }
       if (len(arr) > 40) { sort(arr); while (len(arr) > 20) { pop(arr); } }
       if (vh_chance(&r, 30) && mem(tbl, $I(k / 2))) { rem(tbl, $I(k / 2)); }
       d = fold(d, len(tbl)); d = fold(d, mem(tbl, $I(k)) ? (uint64_t)c_int(get(tbl, $I(k))) : 7777);
@@ -112,7 +125,8 @@ static uint64_t workload(int idx, uint64_t seed, struct tres* out) {
     } else {
       /* strings and lists */
       char b[24]; snprintf(b, sizeof b, "w%d-%d;", idx, op);
-      append(str, $S(b)); push(lst, $S(b));
+      append(str, $S(b));
+      if (len(lst) > 2 && vh_chance(&r, 50)) { push_at(lst, $S(b), $I(1)); d = fold_str(d, c_str(get(lst, $I(1)))); push(lst, $S(b)); } else { push(lst, $S(b)); }
       if (len(str) > 400) { resize(str, 10); }
       if (len(lst) > 30) { pop_at(lst, $I(0)); }
       d = fold(d, len(str)); d = fold(d, hash(str)); d = fold_str(d, c_str(get(lst, $I(-1))));
@@ -120,7 +134,7 @@ static uint64_t workload(int idx, uint64_t seed, struct tres* out) {
   }
   /* leave thread-local entries clean for the next run on this thread object */
   for (int s = 0; s < 3; s++) { char key[16]; snprintf(key, sizeof key, "slot%d", s); if (mem(me, $S(key))) { rem(me, $S(key)); } }
-  d = fold(d, len(tbl)); d = fold(d, hash(tbl)); d = fold(d, hash(lst));
+  d = fold(d, len(tbl)); d = fold(d, hash(tbl)); d = fold(d, hash(lst)); d = fold(d, hash(tre)); d = fold(d, hash(arr));
   return d;
 }
 
